@@ -38,6 +38,12 @@ STYLE_FLAGS = {
   "op": (styles.StyleProperties.Opacity, float),
   "sb": (styles.StyleProperties.ShowBackground, lambda v: styles.ShowBackgroundType[v]),
   "vis": (styles.StyleProperties.Visibility, lambda v: styles.VisibilityType[v]),
+  "fw": (styles.StyleProperties.FontWeight, lambda v: styles.FontWeightType[v]),
+  "fs": (styles.StyleProperties.FontStyle, lambda v: styles.FontStyleType[v]),
+  "td": (styles.StyleProperties.TextDecoration, lambda v: styles.TextDecorationType(underline=(v == "underline"), line_through=(True if v == "linethrough" else None))),
+  "ta": (styles.StyleProperties.TextAlign, lambda v: styles.TextAlignType[v]),
+  "dir": (styles.StyleProperties.Direction, lambda v: styles.DirectionType[v]),
+  "da": (styles.StyleProperties.DisplayAlign, lambda v: styles.DisplayAlignType[v]),
 }
 ANIM_FLAGS = {
   "abg": (styles.StyleProperties.BackgroundColor, _color),
@@ -63,6 +69,7 @@ class ENode:
     self.steps = []         # [(begin|None, end|None, DisplayType)] display animation, document order
     self.color_steps = []   # [(begin, end, ColorType)]
     self.other_steps = []   # [(prop, begin, end, value)]
+    self.styles = {}        # specified styles set through STYLE_FLAGS
     self.color = None
     self.text = None
     self.space = "default"
@@ -163,10 +170,12 @@ def _display(ex, name, flags, node, info):
     elif f.startswith("c="):
       node.color = styles.NamedColors[f[2:]].value
       node.elem.set_style(styles.StyleProperties.Color, node.color)
+      node.styles[styles.StyleProperties.Color] = node.color
     elif f.split("=")[0] in STYLE_FLAGS:
       k, v = f.split("=")
       prop, conv = STYLE_FLAGS[k]
       node.elem.set_style(prop, conv(v))
+      node.styles[prop] = conv(v)
       node.tags.add(k)
     elif f.split("=")[0] in ANIM_FLAGS:
       k, v = f.split("=")
